@@ -3,7 +3,7 @@ Scenario:  <time ms> <n> <arg>*n <nopts> <opt>*      (args as byte strings incl.
            "this vector spells these documented options", judged only when the claim is true)
   opt ::= :h :v :vv :c :p :b :lg :ln :ll :ri :f :e :ci | :r ~|<digits> | :s ~|<digits> | :g <k> <v> | :n <k> <v>
         | :t <k> <g> <n> | :T <ignored 0|1> <g> <n> | :o <0 normal|1 eclipse|2 junit|3 teamcity> | :k <v>      k: 0 -x 1 -sx 2 -xx 3 -xsx
-Observation: :rej <help> <tests run> <printed> | :ok <flags..> <seed> <repeat> <out> <pkg> <group filters> <name filters> <selection of 12 probes>"""
+Observation: :rej <help> <tests run> <printed> | :ok <flags..> <seed> <repeat> <out> <pkg> <group filters> <name filters> <selection of 14 probes>"""
 from vlib import tb
 ID = "C12"
 FLAVOURS = ["asan"]
@@ -32,7 +32,9 @@ IDENTS = [b"grp", b"name", b"ame", b"gr", b"Group", b"Test", b"a", b"b", b"ab", 
           b"other", b"name2", b"grp2", b"1", b"007", b"12", b"r", b"s", b"t", b"g", b"n", b"xg", b"st", b"v", b"-v", b"-h", b"ok", b"i", b"o",
           b"junit", b"TEST(", b"p", b"e", b" ", b"a b", b"_", b"Z9_", b"\xff", b"k", b"-", b"+5", b"0",
           # shapes some forms exclude (then only safety / well-formedness is judged): separators of the compound forms, empty
-          b"a.b", b"x,y", b"q)", b"gr.", b",", b")", b""]
+          b"a.b", b"x,y", b"q)", b"gr.", b",", b")", b"",
+          # self-overlapping patterns against the probes aaab / xababac / Looop / TestTestTests (a match inside a failed partial match)
+          b"aab", b"abac", b"oop", b"TestTests", b"aaab", b"ab", b"oo", b"Looop", b"bab"]
 LITERALS = ["-h", "-v", "-vv", "-c", "-p", "-b", "-lg", "-ln", "-ll", "-ri", "-f", "-e", "-ci", "-r", "-g", "-t", "-st", "-xt", "-xst", "-sg",
             "-xg", "-xsg", "-n", "-sn", "-xn", "-xsn", "-s", "TEST(", "IGNORE_TEST(", "-o", "-p", "-k", "-pok"]
 TIMES = [0, 1, 1 << 32, (1 << 32) + 5, 0xfffffffff, 12345]
